@@ -59,8 +59,10 @@ Definition run (c : case) : verdict :=
         | CNotHandled | CStunResponse _ | CChanData _ _ => negb err   (* the harness client has no relayed socket: ChannelData is discarded silently *)
         | _ => true
         end in
-      (* the documented table: never (not handled, error) *)
-      let holds := negb panicked && negb (negb handled && err) in
+      (* the documented table: never (not handled, error); and a well-formed ChannelData message (by the codec of C11,
+         whatever its payload looks like) is handled as ChannelData, without an error *)
+      let holds := negb panicked && negb (negb handled && err) &&
+        (if is_channel_data buf then match cd_decode buf with CdOk _ _ => handled && negb err | CdErr _ => true end else true) in
       (agree, holds)
   | KLive _ _ panicked wedged a1 a2 unchanged =>
       let ok := negb panicked && negb wedged && a1 && a2 && unchanged in (ok, ok)
